@@ -26,7 +26,7 @@ COMPONENTS = {"real": ["parse.ioutils.delimited_jelly_hint / get_options_and_fra
               "stub": ["writer in the header lab: simkit.refenc", "byte sources"]}
 ASSUMPTIONS = ["streams whose first frame is empty or starts with a row (the property's domain)",
                "a pure function of three bytes: seeded sampling of its reachable inputs, no exhaustive claim"]
-PROBES = ["first_frame_len_10", "first_row_len_10", "header_0A0A", "varint2_first_len", "varint3_first_len",
+PROBES = ["preamble_runs", "first_frame_len_10", "first_row_len_10", "header_0A0A", "varint2_first_len", "varint3_first_len",
           "leading_empty_frame", "content_gt_64k", "real_writer_headers", "model_headers", "differential_runs"]
 SHRINK_LISTS = ["ops", "items"]
 
@@ -80,6 +80,10 @@ def generate(rng, run, tier):
         plan["source"] = "model"
         plan["integration"] = integration
     plan["kind"] = kind
+    if plan["source"] == "real" and rng.random() < 0.3:
+        # row lengths around the 1-byte/2-byte varint boundary (options row of exactly 127/128/129 bytes ...)
+        plan["cfg"]["stream_name"] = "n" * rng.randint(95, 130)
+    plan["preamble"] = rng.choice([0, 0, 0, 1, 5, 8191])
     plan["consumer"] = rng.choice(["flat", "flat", "grouped", "to_graph", "plugin"])
     plan["frontend"] = rng.choice(["bytesio", "raw", "buffered", "seekable_buffered", "gzip", "duck", "rwpair"])
     plan["policy"] = "tape"
@@ -165,7 +169,10 @@ def differential_side(plan, sim):
         if len(data) > 65536:
             sim.count("content_gt_64k")
         datas[delimited] = data
-        fobj, pipe = open_frontend(plan["frontend"], sim, data=data, policy=plan.get("policy", "tape"))
+        pre = b"P" * int(plan.get("preamble") or 0) if plan["frontend"] in ("bytesio", "seekable_buffered") else b""
+        if pre:
+            sim.count("preamble_runs")
+        fobj, pipe = open_frontend(plan["frontend"], sim, data=data, policy=plan.get("policy", "tape"), preamble=pre)
         try:
             res = c09.consume(plan, fobj, physical)
         except Exception as e:  # noqa: BLE001
